@@ -14,7 +14,10 @@
      cl      Content-Length set by the application, -1 = none;  ct  TRUE iff it set Content-Type
      fk, fa  fault: "none" | "stream" (the stream/emitter raises on its fa-th read, 0-based) |
              "send" (the server's fa-th send raises; send 0 is the response start, so on WSGI,
-             where start_response is not made to fail, fa >= 1 is the (fa-1)-th body block)
+             where start_response is not made to fail, fa >= 1 is the (fa-1)-th body block) |
+             "render" (rendering the body raises - unserialisable media, a raising media handler
+             or render_body() itself - before anything was sent; the default error handler then
+             re-fills the response, see Eff)
 
    The emission is a state machine whose steps are the framework's emission steps, so that a
    fault falls *between any two* of them.  `ev` is the server-visible event sequence:
@@ -24,16 +27,18 @@
    The property clauses are operators over (case, ev, begun, closes, ...) and are used both as
    invariants of this machine (leg M) and by the trace judge ResponseEmitTrace (leg B).
 
-   Named deviations of the code under test from this design are switches that are FALSE in the
-   design and only turned on to show that the invariants can fail:
+   Wrong-design switches (FALSE in the design; turned on only to show that the invariants can
+   fail - the first two are defects the code under test once had, both repaired):
      RenderSetsType     rendering resp.media stores the default media type in the response, so a
                         204/304 goes out with a framework-supplied Content-Type       (F9)
      BodilessByLine     the WSGI side recognises 100/101/204/304 by comparing the status *line*
-                        with the registry's, so "204 Custom" is sent with a body       (F13)
-     ForgetCloseOnFault a fault that interrupts streaming skips close()                        *)
+                        with the registry's, so "204 Custom" is sent with a body       (F14)
+     ForgetCloseOnFault a fault that interrupts streaming skips close()
+     StaleLengthOnRenderFault  after a render-phase fault the forced Content-Length of the (empty)
+                        error response is forgotten: none, or the application's stale one        *)
 EXTENDS Integers, Sequences, FiniteSets, TLC
 
-CONSTANTS RenderSetsType, BodilessByLine, ForgetCloseOnFault
+CONSTANTS RenderSetsType, BodilessByLine, ForgetCloseOnFault, StaleLengthOnRenderFault
 
 BODILESS == {100, 101, 204, 304}
 TYPELESS == {204, 304}
@@ -57,6 +62,21 @@ RenderedLen(c)   == IF c.text >= 0 THEN c.text ELSE IF c.data >= 0 THEN c.data E
 HasClose(c)      == c.stream \in {"iter", "file"}
 Faulty(c)        == c.fk # "none"
 
+(* ---- a render-phase fault ----
+   The exception is handled like any other: the default handler re-fills the response as a
+   500 with a framework-supplied Content-Type (an application's own type is replaced).
+   RenderPhaseFailureDropsBody (named deviation, a D-level detail the property does not speak
+   about): the error document the handler puts into the response is never rendered - the 500
+   goes out with an empty body - and the body sources the application had set are dropped.  What
+   happens to an application *stream* is left open by the design (`keep`): it may be dropped
+   (never begun, so never closed) or still be streamed under the 500; an SSE emitter stays. *)
+RenderPhaseFailureDropsBody == TRUE
+ErrorBodyLen == IF RenderPhaseFailureDropsBody THEN -1 ELSE 40
+Eff(c, keep) ==
+    [c EXCEPT !.code = 500, !.form = "int", !.text = -1, !.data = -1, !.media = ErrorBodyLen, !.ct = FALSE,
+              !.stream = IF keep THEN c.stream ELSE "none", !.chunks = IF keep THEN c.chunks ELSE <<>>]
+RenderFaulted(c) == c.fk = "render"
+
 (* what the code under test takes for "bodiless" / "typeless" (= the design unless a switch is on) *)
 LineSeen(c)       == ~(BodilessByLine /\ ~IsAsgi(c) /\ c.form = "xline")
 SeenStatusBodiless(c) == StatusBodiless(c) /\ LineSeen(c)
@@ -77,7 +97,7 @@ StartCL(c) ==
     IF SeenBodiless(c)
     THEN (IF SeenStatusBodiless(c) THEN c.cl ELSE HeadAdvertisesLength(c))
     ELSE CASE Chosen(c) \in {"text", "data", "media"} -> RenderedLen(c)
-           [] Chosen(c) = "none"                     -> 0
+           [] Chosen(c) = "none"                     -> IF StaleLengthOnRenderFault /\ RenderFaulted(c) THEN c.cl ELSE 0
            [] OTHER                                  -> c.cl
 (* Content-Type class: "app" = the application's own, "fw" = supplied by the framework, "none" *)
 StartCT(c) ==
@@ -114,7 +134,7 @@ ExpectedPieces(c) ==
 IsPrefixOf(s, t) == Len(s) <= Len(t) /\ SubSeq(t, 1, Len(s)) = s
 
 (* ------------------------------------------------------------------ the property clauses *)
-(* o = [c, ev, pieces, begun, closes, complete, ended]:  pieces = the body bytes received, as the
+(* o = [c (the case; after a render-phase fault the re-filled response Eff(c, ..)), ev, pieces, begun, closes, complete, ended]:  pieces = the body bytes received, as the
    list of source pieces they consist of;  complete = the response was emitted to its end
    without an injected fault; ended = the request is over (completed or aborted by the fault). *)
 StartOf(e) == e[CHOOSE i \in DOMAIN e : e[i].k = "start"]
@@ -127,9 +147,11 @@ OnlyLastHasNoMoreBodyC(o) ==
     /\ \A i \in 1..(Len(o.ev) - 1) : o.ev[i].k = "body" => o.ev[i].more
     /\ o.complete => (o.ev # <<>> /\ IsFinal(o.ev[Len(o.ev)]))
 NothingAfterFinalC(o) == \A i \in DOMAIN o.ev : IsFinal(o.ev[i]) => i = Len(o.ev)
+(* after a render-phase fault the body is the error handler's business (D-level, see Eff) *)
 PrecedenceC(o) ==
-    /\ IsPrefixOf(o.pieces, ExpectedPieces(o.c))
-    /\ o.complete => o.pieces = ExpectedPieces(o.c)
+    \/ RenderFaulted(o.c)
+    \/ /\ IsPrefixOf(o.pieces, ExpectedPieces(o.c))
+       /\ o.complete => o.pieces = ExpectedPieces(o.c)
 LengthRequired(c) == c.method # "HEAD" /\ ~StatusBodiless(c) /\ ~Streamed(c)
 LengthConsistentC(o) ==
     (o.complete /\ LengthRequired(o.c) /\ Starts(o.ev) > 0) => StartOf(o.ev).cl = Bytes(o.ev)
@@ -141,7 +163,8 @@ CloseExactlyOnceOnceBegunC(o) ==
     /\ (o.ended /\ o.begun /\ HasClose(o.c)) => o.closes = 1
 
 (* ------------------------------------------------------------------ the emission machine *)
-VARIABLES c,          \* the case
+VARIABLES c0,         \* the case as the application filled it in
+          c,          \* the response being emitted: c0, or Eff(c0, ..) after a render-phase fault
           pc,         \* next emission step
           ev,         \* events the server has received
           k,          \* next block / event index of the stream or emitter
@@ -151,9 +174,9 @@ VARIABLES c,          \* the case
           closes,     \* close() calls on the stream
           raised,     \* the stream / emitter raised the injected fault
           sendFailed  \* the server's send raised the injected fault
-vars == <<c, pc, ev, k, hand, sends, begun, closes, raised, sendFailed>>
+vars == <<c0, c, pc, ev, k, hand, sends, begun, closes, raised, sendFailed>>
 
-Start(case) == /\ c = case /\ pc = "start" /\ ev = <<>> /\ k = 0 /\ hand = -1 /\ sends = 0
+Start(case) == /\ c0 = case /\ c = case /\ pc = (IF case.fk = "render" THEN "render" ELSE "start") /\ ev = <<>> /\ k = 0 /\ hand = -1 /\ sends = 0
                /\ begun = FALSE /\ closes = 0 /\ raised = FALSE /\ sendFailed = FALSE
 
 AfterStart ==
@@ -170,24 +193,31 @@ Send(e, ok, bad) ==
         THEN (sendFailed' = TRUE /\ ev' = ev /\ pc' = bad)
         ELSE (sendFailed' = sendFailed /\ ev' = Append(ev, e) /\ pc' = ok))
 
+(* rendering the body raises; the error handler re-fills the response *)
+RenderFails ==
+    /\ pc = "render"
+    /\ \E keep \in (IF IsAsgi(c) /\ c.stream # "none" THEN BOOLEAN ELSE {FALSE}) : c' = Eff(c, keep)
+    /\ pc' = "start"
+    /\ UNCHANGED <<c0, ev, k, hand, sends, begun, closes, raised, sendFailed>>
+
 SendStart ==
     /\ pc = "start"
     /\ (IF IsAsgi(c) THEN Send(StartEvt(c), AfterStart, "done")
         ELSE (sends' = 1 /\ ev' = <<StartEvt(c)>> /\ pc' = AfterStart /\ UNCHANGED sendFailed))   \* start_response
-    /\ UNCHANGED <<c, k, hand, begun, closes, raised>>
+    /\ UNCHANGED <<c0, c, k, hand, begun, closes, raised>>
 
 (* a rendered (text / data / media) body: one block *)
 SendBody ==
     /\ pc = "body"
     /\ Send(BodyEvt(RenderedLen(c), ~IsAsgi(c), Chosen(c), 0), IF IsAsgi(c) THEN "done" ELSE "eof", "done")
-    /\ UNCHANGED <<c, k, hand, begun, closes, raised>>
+    /\ UNCHANGED <<c0, c, k, hand, begun, closes, raised>>
 
 (* nothing to send: HEAD, a bodiless status, or no body source *)
 SendEmpty ==
     /\ pc = "empty"
     /\ (IF IsAsgi(c) THEN Send(FinalEvt, "done", "done")
         ELSE (ev' = Append(ev, EofEvt) /\ pc' = "done" /\ UNCHANGED <<sends, sendFailed>>))      \* empty iterable
-    /\ UNCHANGED <<c, k, hand, begun, closes, raised>>
+    /\ UNCHANGED <<c0, c, k, hand, begun, closes, raised>>
 
 (* ask the stream for its next block: a block, exhaustion, or the injected failure *)
 StreamRead ==
@@ -200,13 +230,13 @@ StreamRead ==
                THEN hand' = k /\ k' = k + 1 /\ pc' = "chunk" /\ ev' = ev
                ELSE /\ pc' = "exhausted" /\ UNCHANGED <<k, hand>>
                     /\ ev' = IF IsAsgi(c) THEN ev ELSE Append(ev, EofEvt)   \* the server sees StopIteration
-    /\ UNCHANGED <<c, sends, closes, sendFailed>>
+    /\ UNCHANGED <<c0, c, sends, closes, sendFailed>>
 
 StreamSendChunk ==
     /\ pc = "chunk"
     /\ Send(BodyEvt(c.chunks[hand + 1], TRUE, "stream", hand), "read", "fault")
     /\ hand' = -1
-    /\ UNCHANGED <<c, k, begun, closes, raised>>
+    /\ UNCHANGED <<c0, c, k, begun, closes, raised>>
 
 (* close() of the stream: after exhaustion, and after a fault that interrupted streaming
    (ASGI: the framework's finally; WSGI: the server closes the returned iterable, which must
@@ -215,14 +245,14 @@ CloseStream ==
     /\ pc \in {"fault", "exhausted"}
     /\ closes' = closes + (IF HasClose(c) /\ ~(ForgetCloseOnFault /\ pc = "fault") THEN 1 ELSE 0)
     /\ pc' = IF pc = "exhausted" /\ IsAsgi(c) THEN "final" ELSE "done"
-    /\ UNCHANGED <<c, ev, k, hand, sends, begun, raised, sendFailed>>
+    /\ UNCHANGED <<c0, c, ev, k, hand, sends, begun, raised, sendFailed>>
 
 (* end of the WSGI iterable after a rendered body / the closing ASGI body event after a stream *)
 Eof ==
     /\ pc \in {"eof", "final"}
     /\ (IF pc = "final" THEN Send(FinalEvt, "done", "done")
         ELSE (ev' = Append(ev, EofEvt) /\ pc' = "done" /\ UNCHANGED <<sends, sendFailed>>))
-    /\ UNCHANGED <<c, k, hand, begun, closes, raised>>
+    /\ UNCHANGED <<c0, c, k, hand, begun, closes, raised>>
 
 (* server-sent events (ASGI): the emitter is iterated, every event is one body block *)
 SseNext ==
@@ -232,14 +262,14 @@ SseNext ==
        ELSE /\ raised' = raised
             /\ IF k < c.sse THEN hand' = k /\ k' = k + 1 /\ pc' = "ssechunk"
                ELSE pc' = "final" /\ UNCHANGED <<k, hand>>
-    /\ UNCHANGED <<c, ev, sends, begun, closes, sendFailed>>
+    /\ UNCHANGED <<c0, c, ev, sends, begun, closes, sendFailed>>
 SseSend ==
     /\ pc = "ssechunk"
     /\ Send(BodyEvt(1, TRUE, "sse", hand), "sse", "done")
     /\ hand' = -1
-    /\ UNCHANGED <<c, k, begun, closes, raised>>
+    /\ UNCHANGED <<c0, c, k, begun, closes, raised>>
 
-Next == SendStart \/ SendBody \/ SendEmpty \/ StreamRead \/ StreamSendChunk \/ CloseStream \/ Eof \/ SseNext \/ SseSend
+Next == RenderFails \/ SendStart \/ SendBody \/ SendEmpty \/ StreamRead \/ StreamSendChunk \/ CloseStream \/ Eof \/ SseNext \/ SseSend
 
 Obs == [c |-> c, ev |-> ev, pieces |-> Pieces(ev), begun |-> begun, closes |-> closes,
         complete |-> (pc = "done" /\ ~raised /\ ~sendFailed), ended |-> pc = "done"]
@@ -253,6 +283,6 @@ BodilessHaveNoBytes         == BodilessHaveNoBytesC(Obs)
 TypelessHaveNoFrameworkType == TypelessHaveNoFrameworkTypeC(Obs)
 OthersHaveType              == OthersHaveTypeC(Obs)
 CloseExactlyOnceOnceBegun   == CloseExactlyOnceOnceBegunC(Obs)
-(* without a fault every response is emitted to its end *)
-FaultFreeCompletes          == (pc = "done" /\ ~Faulty(c)) => Obs.complete
+(* without a fault, and after a (handled) render-phase fault, every response is emitted to its end *)
+FaultFreeCompletes          == (pc = "done" /\ c.fk \in {"none", "render"}) => Obs.complete
 =============================================================================
